@@ -12,7 +12,9 @@ LEVEL = "exploration"
 RULE = (
     "Hypothesis draws, per aggregation (all any sum min max list tuple set dict sorted reduce nlargest "
     "nsmallest), an input of 0-8 items (Items with tied keys, exact mixed numerics, unorderable / "
-    "unhashable mixes), given as list, one-shot iterator or async generator, with key absent/sync/async, "
+    "unhashable mixes), given as list, tuple, one-shot iterator, __getitem__ sequence, re-iterable iterable, async "
+    "generator or class-based async iterator behind a proxy, with key absent/sync/async (also callable objects with value "
+    "equality or without hash), "
     "reverse, default, start/initial (numbers, Items, lists, tuples, an object with a mutating __iadd__), "
     "n from -1 to len+2, dict keywords. Oracle: the stdlib function on a separately materialised copy "
     "(type+value signature, identity of Items via uid, exception type) plus a mutation oracle: every "
